@@ -21,7 +21,7 @@ CONSTANTS
     Ops,        \* subset of {"quote","half","disc","trade","mark","markall","value","lots","rebal","accrue","query"}
     Bids,       \* set of integer bid prices
     Spreads,    \* set of integer (even) spreads
-    DQs,        \* set of integer trade sizes
+    DQs,        \* set of trade sizes (rationals)
     LotTargets, \* set of functions [SUBSET C -> Int \ {0}] (rebalance to numbers of contracts)
     Reqs,       \* set of rebalancing requests (see LedgerOps) for op "rebal"
     Steps,      \* set of clock increments (years) for rebalances / accruals
@@ -43,8 +43,10 @@ Init == /\ st = InitLedger
         /\ hist = <<>>
         /\ n = 0
 
+\* every history record also carries the positions and margins after the operation, so that the
+\* harness can compare the account at every step of a replayed history and not only at its end
 Log(o) == /\ last' = o
-          /\ hist' = Append(hist, o)
+          /\ hist' = Append(hist, o @@ [pos |-> st'.pos, mrg |-> st'.mrg])
           /\ n' = n + 1
 
 \* NLV as a pure function of the state, NaN when some open position cannot be priced
@@ -78,12 +80,12 @@ Discontinue(c) ==
 
 Trade(c, dq) ==
     /\ "trade" \in Ops
-    /\ \E r \in {TransactF(st, c, RM(dq))} :     \* bound once (TLC re-evaluates LET definitions per reference in actions)
+    /\ \E r \in {TransactF(st, c, dq)} :     \* bound once (TLC re-evaluates LET definitions per reference in actions)
            /\ st' = r.st
            /\ h' = IF r.out = "ok"
-                   THEN [h EXCEPT !.paid[c] = Add(@, Mul(RM(dq), r.exec)), !.fees = Add(@, r.comm)]
+                   THEN [h EXCEPT !.paid[c] = Add(@, Mul(dq, r.exec)), !.fees = Add(@, r.comm)]
                    ELSE h
-           /\ Log([op |-> "trade", c |-> c, x |-> RM(dq), y |-> "-", out |-> r.out, nlv |-> Nlv(r.st)])
+           /\ Log([op |-> "trade", c |-> c, x |-> dq, y |-> "-", out |-> r.out, nlv |-> Nlv(r.st)])
     /\ UNCHANGED <<track, clk>>
 
 Mark(c) ==
